@@ -119,11 +119,8 @@ func init() {
 			r := Sub(seed, "config")
 			if r.Chance(0.15) {
 				s := &C01Spec{Seed: seed}
-				if r.Bool() {
-					cc := genCharCfg(r, charOpt{maxLen: 1, maxReq: 0, noEmptied: true})
-					cc.Length, cc.Require, cc.RequireSets = 1, 0, nil
-					s.APIChar = &cc
-				} else {
+				{ // word picks only: a wordlist Generate of Length 1 costs ~1 us, a character Generate 30-600 us,
+					// which would put the 2^32-word adjudication beyond any budget
 					w := WLCfg{Words: genWords(r, listOpt{min: 2, max: 12, twins: 0.3, precap: 0.1, caseless: 0.1, dups: 0.4}), Length: 1, Cap: "none", Sep: SepCfg{Kind: "char", Char: ""}}
 					s.APIWL = &w
 				}
@@ -634,10 +631,6 @@ func c01Exact(c *Ctx, tier string, seed uint64) {
 		if tr := exactCountAPI(c, &C01Spec{APIWL: &w}, "thorough tier: word pick from a list with a duplicate and a twin"); tr != "" {
 			c.Trouble("API exact count: %s", tr)
 		}
-		cc := CharCfg{Length: 1, Allow: 4, AllowChars: "é-"}
-		if tr := exactCountAPI(c, &C01Spec{APIChar: &cc}, "thorough tier: character pick"); tr != "" {
-			c.Trouble("API exact count: %s", tr)
-		}
 	}
 	var sums []exactSummary
 	for _, j := range jobs {
@@ -829,6 +822,15 @@ func exactCountAPI(c *Ctx, s *C01Spec, why string) (trouble string) {
 	type out struct {
 		res apiCountResult
 		err string
+	}
+	// cost probe: 2^16 words in one child; give up (inconclusive, not a verdict) if all 2^32 would take too long
+	tp := nowS()
+	if pb, err := exec.Command(exe, "count-child-api", specFile, "0", "65536").Output(); err != nil {
+		return fmt.Sprintf("api count probe: %v: %s", err, tail(string(pb), 300))
+	}
+	if projected := (nowS() - tp) * 65536 / float64(W); projected > 600 {
+		c.Count("api_exact_count_skipped_too_slow", 1)
+		return fmt.Sprintf("%s: counting all 2^32 first words through Generate would take about %.0f s; skipped", desc, projected)
 	}
 	ch := make(chan out, W)
 	total := uint64(1) << 32
